@@ -189,3 +189,59 @@ theorem nullDataScript_recognised (d : List UInt8) (hl : d.length ≤ 80) (h81 :
       simp [hl]
 
 end BV.C16.Lemmas
+
+namespace BV.C16.Lemmas
+open BV.C16
+
+theorem chunk32_flatten : ∀ (path : List (List UInt8)) (f : Nat), (∀ p ∈ path, p.length = 32) → path.length ≤ f →
+    chunk32 f path.flatten = path
+  | [], f, _, _ => by cases f <;> simp [chunk32]
+  | p :: ps, 0, _, hf => by simp at hf
+  | p :: ps, f+1, h, hf => by
+    have hp : p.length = 32 := h p List.mem_cons_self
+    have hne : p ++ ps.flatten ≠ [] := by
+      intro e; have := congrArg List.length e; simp [hp] at this
+    simp only [List.flatten_cons, chunk32, hne, if_false]
+    rw [List.take_left' hp, List.drop_left' hp,
+        chunk32_flatten ps f (fun q hq => h q (List.mem_cons_of_mem _ hq)) (by simpa using hf)]
+
+theorem flatten_length32 : ∀ (path : List (List UInt8)), (∀ p ∈ path, p.length = 32) → path.flatten.length = 32 * path.length
+  | [], _ => rfl
+  | p :: ps, h => by
+    simp only [List.flatten_cons, List.length_append, List.length_cons, h p List.mem_cons_self,
+      flatten_length32 ps (fun q hq => h q (List.mem_cons_of_mem _ hq))]
+    omega
+
+set_option maxRecDepth 40000 in
+theorem leafver_bits : ∀ v : UInt8, v &&& 1 = 0 →
+    ((v ||| 1) &&& 1 = 1) ∧ ((v ||| 1) &&& 0xfe = v) ∧ ((v ||| 0) &&& 1 ≠ 1) ∧ ((v ||| 0) &&& 0xfe = v) := by
+  apply forall_uint8'; decide
+
+theorem parseControlBlock_gen (validX : List UInt8 → Bool) (h : UInt8) (x : List UInt8) (path : List (List UInt8))
+    (hx : x.length = 32) (hvx : validX x = true) (hp : ∀ p ∈ path, p.length = 32) (hn : path.length ≤ 128) :
+    parseControlBlock validX (h :: (x ++ path.flatten)) = .ok ⟨h &&& 1 = 1, h &&& 0xfe, x, path⟩ := by
+  have hfl := flatten_length32 path hp
+  have hlen : (h :: (x ++ path.flatten)).length = 33 + 32 * path.length := by
+    simp only [List.length_cons, List.length_append, hx, hfl]; omega
+  unfold parseControlBlock
+  rw [hlen, if_neg (by omega), if_neg (by omega), if_neg (by omega)]
+  simp only [List.take_left' hx, List.drop_left' hx, hvx, Bool.not_true, Bool.false_eq_true, if_false, hfl]
+  have hq : 32 * path.length / 32 = path.length := by omega
+  rw [hq, chunk32_flatten path _ hp (Nat.le_refl _)]
+
+/-- `ParseControlBlock (ToBytes c) = c` for an even leaf version, a valid 32-byte internal key and at most 128
+32-byte proof nodes -/
+theorem parseControlBlock_bytes (validX : List UInt8 → Bool) (c : CtrlBlock)
+    (hv : c.leafVer &&& 1 = 0) (hx : c.internalX.length = 32) (hvx : validX c.internalX = true)
+    (hp : ∀ p ∈ c.path, p.length = 32) (hn : c.path.length ≤ 128) :
+    parseControlBlock validX c.bytes = .ok c := by
+  obtain ⟨par, ver, x, path⟩ := c
+  simp only at hv hx hvx hp hn
+  obtain ⟨b1, b2, b3, b4⟩ := leafver_bits ver hv
+  have e : (CtrlBlock.mk par ver x path).bytes = (ver ||| (if par then 1 else 0)) :: (x ++ path.flatten) := rfl
+  rw [e, parseControlBlock_gen validX _ x path hx hvx hp hn]
+  cases par with
+  | true => simp only [if_true, b1, b2, decide_true]
+  | false => simp only [Bool.false_eq_true, if_false, b3, b4, decide_false]
+
+end BV.C16.Lemmas
